@@ -39,6 +39,9 @@ mod scope;
 mod serialize;
 mod units;
 mod value;
+/// Read-only hooks for external verification tooling. Not part of the public API.
+#[cfg(feature = "verif-hooks")]
+pub mod verif_hooks;
 
 use std::error::Error;
 use std::fmt::Write;
